@@ -272,7 +272,7 @@ class Obs:
         res = s.ad.call(op="analyze", text=text)
         if "errors" in res:
             T = layout.Text(text)
-            api = [(m, T.rng(a, b)) for a, b, m in res["errors"]]
+            api = [(e[2], T.rng(e[0], e[1])) for e in res["errors"]]
         else:
             api = res
         return lsp, api
